@@ -386,7 +386,7 @@ def _fold_init():
             e = z3.fpRoundToIntegral(rms[t.val], a[0])
         elif op == 'bits2f':
             e = z3.fpBVToFP(a[0], z3.Float64())
-        elif op == 'stage':
+        elif op == 'stage' or op == 'name':
             e = a[0]
         else:
             raise ValueError('fold: unsupported op ' + op)
@@ -804,6 +804,12 @@ def substitute(t, sub):
             na = tuple(go(a) for a in x.args)
             if all(p is q for p, q in zip(na, x.args)):
                 r = x
+            elif x.op == 'and':
+                r = TM.And(*na)
+            elif x.op == 'or':
+                r = TM.Or(*na)
+            elif x.op == 'not':
+                r = TM.Not(na[0])
             else:
                 r = TM.mk(x.op, na, x.sort, x.val)
         memo[x.id] = r
